@@ -172,9 +172,13 @@ def run_case(ctx, case):
                 if res.error is not None:
                     ctx.count('request_raised')
                     if post_dump != pre_dump:
-                        ctx.violation('unreported-effect|raised:%s' % type(res.error).__name__,
-                                      'request raised %s after items had taken effect' % type(res.error).__name__,
-                                      detail)
+                        from kv.monitors.logwatch import innermost_kmip_frame
+                        stage = 'response-unencodable' if res.error_stage == 'encode' else 'raised'
+                        ctx.violation('unreported-effect|%s:%s@%s' % (stage, type(res.error).__name__,
+                                                                      innermost_kmip_frame(res.error.__traceback__)),
+                                      'items took effect but %s (%s: %s): the client is not told what was executed'
+                                      % ('the response could not be encoded' if stage != 'raised' else 'the request raised',
+                                         type(res.error).__name__, str(res.error)[:120]), detail)
                     continue
                 detail['response'] = res.brief()
                 expect_request_error = (option == OPT.UNDO or
